@@ -196,7 +196,7 @@ B_SOURCES = {
     "src/emoji_u1f600.svg": {"kind": "rects", "n": 3, "seed": 5, "viewbox": [0, 0, 200, 100]},
     "src/emoji_u1f469_200d_1f91d.svg": {"kind": "shared", "n": 3, "seed": 1, "viewbox": [0, 0, 100, 100]},
     "src/emoji_u42.svg": "corpus:reused_shape.svg",
-    "src/emoji_u43.svg": "text:<svg xmlns=\"http://www.w3.org/2000/svg\" viewBox=\"0 0 100 100\"><defs><linearGradient id=\"g\" x1=\"10\" y1=\"10\" x2=\"90\" y2=\"60\" gradientUnits=\"userSpaceOnUse\"><stop offset=\"0\" stop-color=\"red\"/><stop offset=\"1\" stop-color=\"blue\"/></linearGradient></defs><rect x=\"10\" y=\"10\" width=\"80\" height=\"50\" fill=\"url(#g)\"/></svg>",
+    "src/emoji_u43.svg": "text:<svg xmlns=\"http://www.w3.org/2000/svg\" viewBox=\"0 0 100 100\"><defs><linearGradient id=\"g\" x1=\"10\" y1=\"10\" x2=\"90\" y2=\"60\" gradientUnits=\"userSpaceOnUse\"><stop offset=\"0\" stop-color=\"red\"/><stop offset=\"1\" stop-color=\"blue\"/></linearGradient></defs><path d=\"M10,10 L90,22 L71,63 L18,55 Z\" fill=\"url(#g)\"/></svg>",  # an irregular quadrilateral: nothing else can donate it
 }
 B_VIEWBOX = {"A": (100, 100), "g_1f600": (200, 100), "g_1f469_200d_1f91d": (100, 100), "B": (128, 128), "C": (100, 100)}
 B_CPS = {"A": (0x41,), "g_1f600": (0x1F600,), "g_1f469_200d_1f91d": (0x1F469, 0x200D, 0x1F91D), "B": (0x42,), "C": (0x43,)}
